@@ -11,6 +11,17 @@ SCHED_NOTE = ("Trusted: Lean kernel + propext/Quot.sound/Classical.choice; the h
               "Event resolution is outside this model (C03); floats of the implementation are compared, not proved.")
 
 CHECKS = {
+    "C13": dict(
+        text="Theorems for ANY well-formed scale (non-empty, strictly ascending inside [0, octave)), any tonic, note, degree: degree "
+             "formula with floor semantics, strict monotonicity, degree in key, membership = pitch class, rest in key, nearest note in "
+             "key and no in-key note strictly closer, filter/snap patterns pointwise; built-in scale table (regenerated from /repo "
+             "each run) decided well-formed; note-name/MIDI round trip for all 0..127 by kernel evaluation. Correspondence over the "
+             "complete finite domain + random user scales.",
+        design="DESIGN.md §3 C13, notes/NOTES-C13.md",
+        note="Trusted: Lean kernel + standard axioms; model lean/IsobarV/Tonal/Model.lean tied to isobar/{key,scale,util}.py and "
+             "pattern/tonal.py by the correspondence (complete finite domain each run); Generated/Tables.lean re-derived from /repo; "
+             "float notes/degrees, empty scales, non-ASCII names outside the model.",
+        technique="Lean 4 general theorems + decide over generated tables + exhaustive differential correspondence"),
     "C01": dict(
         text="Theorems for every tick resolution q, every stream of durations >= 1 tick (on/off grid), every run length, from any "
              "playing state: event k is performed on exactly the first tick at or after its exact ideal time (closed form, = "
